@@ -191,6 +191,69 @@ func VerifC14BuilderChoice() {
 	}
 }
 
+// VerifC14BuilderChoicePartial: several builders for one object of which only SOME pin a constant in their
+// constructor (symbolic which: the original, the duplicate, both, none). A choice among builders is only
+// decidable when every candidate has a constant to be recognised by: otherwise the converter must delegate to
+// one builder, and a choice with a candidate that has no guard (rendered as `if  {`) is never emitted.
+func VerifC14BuilderChoicePartial() {
+	p := ast.NewSchema("p", ast.SchemaMeta{})
+	typ := ast.NewStructField("type", ast.String(), ast.Required())
+	mode := ast.NewStructField("mode", ast.String())
+	p.AddObject(ast.NewObject("p", "Bar", ast.NewStruct(typ, mode)))
+	p.AddObject(ast.NewObject("p", "Foo", ast.NewStruct(ast.NewStructField("bar", ast.NewRef("p", "Bar"), ast.Required()))))
+	schemas := ast.Schemas{p}
+	builders := (&ast.BuilderGenerator{}).FromAST(schemas)
+	which := v.Choose(4) // 0: duplicate only, 1: original only, 2: both, 3: none
+	dupFirst := v.Bool("dupinitfirst")
+	rules := []builder.RewriteRule{builder.Duplicate(builder.ByObjectName("p", "Bar"), "TextBar", nil)}
+	initDup := builder.Initialize(builder.ByName("p", "TextBar"), []builder.Initialization{{PropertyPath: "type", Value: "text"}})
+	initOrig := builder.Initialize(builder.ByName("p", "Bar"), []builder.Initialization{{PropertyPath: "type", Value: "graph"}})
+	switch which {
+	case 0:
+		rules = append(rules, initDup)
+	case 1:
+		rules = append(rules, initOrig)
+	case 2:
+		if dupFirst {
+			rules = append(rules, initDup, initOrig)
+		} else {
+			rules = append(rules, initOrig, initDup)
+		}
+	}
+	rw := rewrite.NewRewrite([]rewrite.LanguageRules{{Language: rewrite.AllLanguages, BuilderRules: rules}}, rewrite.Config{})
+	out, err := rw.ApplyTo(schemas, builders, "go")
+	if err != nil {
+		v.Reach("veneers returned an error")
+		return
+	}
+	ctx := languages.Context{Schemas: schemas, Builders: out}
+	nullable := languages.NullableConfig{Kinds: []ast.Kind{ast.KindMap, ast.KindArray}, AnyIsNullable: true}
+	for _, b := range out {
+		if b.For.Name != "Foo" {
+			continue
+		}
+		conv := languages.NewConverterGenerator(nullable).FromBuilder(ctx, b)
+		seen := false
+		for _, m := range conv.Mappings {
+			for _, om := range m.Options {
+				for _, arg := range om.Args {
+					seen = true
+					v.Assert(c14OneHot(arg) == 1, "C14: an argument mapping does not name exactly one mapping kind")
+					for _, choice := range arg.BuilderDisjunction {
+						v.Assert(len(choice.Guards) >= 1, "C14: a candidate builder of a choice has no guard (no constant to recognise it by): the emitted condition is empty")
+					}
+					if which == 2 {
+						v.Assert(len(arg.BuilderDisjunction) == 2, "C14: builders that all pin a constant are not converted as a guarded choice")
+					} else {
+						v.Assert(len(arg.BuilderDisjunction) == 0 && arg.Builder != nil, "C14: builders that do not all pin a constant are not converted by delegating to one builder")
+					}
+				}
+			}
+		}
+		v.Assert(seen, "C14: the option taking the object with several builders is not converted")
+	}
+}
+
 // VerifC03Compose (C03): the `compose` builder rule groups the builders of composable plugins (panel options,
 // field config) by plugin type in a Go map and emits one composed builder per type. With two plugin types
 // the list of builders it returns (what `cog inspect` shows, and the order later rules and jennies see)
